@@ -117,7 +117,20 @@ def check_instance(m, R, C, inst):
                 return f'{side} branch {b} does not abut the trunk {t} within its extent'
     if len(rects) != 1 + sum(len(list(inst.rectangles(s))) for s in 'NSEW'):
         return 'rectangles() inconsistent with the per-side lists'
+    # every selection string offers exactly the union of what its letters select (T trunk, B all branches, N S E W one side)
+    per = {'T': [t], 'B': [r for r in rects if r != t]}
+    for side in 'NSEW':
+        per[side] = list(inst.rectangles(side))
+    key = lambda r: (r.rows.low, r.rows.high, r.columns.low, r.columns.high)  # noqa
+    for which in WHICH:
+        want = {key(r) for ch in which for r in per[ch]}
+        got = [key(r) for r in inst.rectangles(which)]
+        if len(got) != len(set(got)) or set(got) != want:
+            return f"rectangles('{which}') offers {sorted(got)}, the union of its letters is {sorted(want)}"
     return None
+
+
+WHICH = ['T', 'B', 'TB', 'BT', 'NB', 'BS', 'TN', 'EW', 'NS', 'TNS', 'TBN', 'WBE', 'NSEW', 'TNSEW', 'TNSEWB']
 
 
 def check_matrix(case, res):
